@@ -450,3 +450,50 @@ fn c06_sync_mode_commit_is_durable_and_readable() {
     kani::cover!(nid == 250);
     std::mem::forget((r1, r2, a, b, c, rd, rec, wal));
 }
+
+//@ property: C06
+//@ tier: thorough
+//@ optional: yes
+//@ cap_s: 900
+//@ mem_gb: 14
+//@ stubs: File::write/flush/read/read_buf -> disk model, Instant::now -> arbitrary, crc32fast::hash -> bitwise CRC-32 model, parking_lot mutex slow paths, alloc::fmt::format, bincode decode -> decoder cut
+//@ encodes: WalManager::log (real bincode encoder, framing, NoSync mode: flush only), then WalRecovery::read_record on what was written
+//@ symbolic: the transaction id of one commit marker (0..=250)
+//@ bound: one record, NoSync durability
+//@ oracle: log() writes exactly one well-formed frame (length prefix = payload length, checksum = CRC-32 of the payload) that the reader accepts, followed by a clean end of log
+#[kani::proof]
+#[kani::unwind(38)]
+#[kani::stub(alloc::fmt::format, fmt_stub)]
+#[kani::stub(<std::fs::File as std::io::Read>::read, file_read_stub)]
+#[kani::stub(<std::fs::File as std::io::Read>::read_buf, file_read_buf_stub)]
+#[kani::stub(<std::fs::File as std::io::Write>::write, file_write_stub)]
+#[kani::stub(<std::fs::File as std::io::Write>::flush, file_flush_stub)]
+#[kani::stub(std::fs::File::sync_all, file_sync_all_stub)]
+#[kani::stub(std::time::Instant::now, instant_now_stub)]
+#[kani::stub(parking_lot::RawMutex::lock_slow, mx_lock_slow)]
+#[kani::stub(parking_lot::RawMutex::unlock_slow, mx_unlock_slow)]
+#[kani::stub(crc32fast::hash, crc32_model)]
+#[kani::stub(bincode::serde::decode_from_slice, decode_any)]
+fn c06_log_then_read_one_record() {
+    use grafeo_adapters::storage::wal::{DurabilityMode, WalConfig, WalManager};
+    let tid: u64 = kani::any();
+    kani::assume(tid <= 250);
+    unsafe { DLEN = 0; DPOS = 0; SYNCED = 0; }
+    let cfg = WalConfig { durability: DurabilityMode::NoSync, max_log_size: 1 << 20, compression: false };
+    let wal = WalManager::verif_with_file(std::path::PathBuf::new(), cfg, a_file(), 0, instant_now_stub());
+    let r = wal.log(&WalRecord::TxCommit { tx_id: TxId::new(tid) });
+    assert!(r.is_ok());
+    let written = unsafe { DLEN };
+    assert!(written == 10, "one 2-byte payload frame is 10 bytes");
+    unsafe {
+        assert!(DISK[0] == 2 && DISK[1] == 0 && DISK[2] == 0 && DISK[3] == 0, "length prefix");
+        let p = [DISK[4], DISK[5]];
+        assert!(u32::from_le_bytes([DISK[6], DISK[7], DISK[8], DISK[9]]) == crc32_model(&p), "checksum field is the CRC-32 of the payload");
+    }
+    let rec = WalRecovery::new("w");
+    let mut rd = BufReader::with_capacity(DISK_CAP, a_file());
+    let a = rec.verif_read_record(&mut rd); assert!(matches!(&a, Ok(Some(_))));
+    let b = rec.verif_read_record(&mut rd); assert!(matches!(&b, Ok(None)));
+    kani::cover!(tid == 250);
+    std::mem::forget((r, a, b, rd, rec, wal));
+}
